@@ -24,7 +24,7 @@ def fresh_packages(dname):
 
     if dname not in _FRESH:
         out = {}
-        design = dags.DAGS[dname]()
+        design = dags.ALL[dname]()
         for top in design["modules"]:
             built = build(design)
             out[top] = h.to_proto(built.modules[top]).SerializeToString(deterministic=True)
